@@ -45,8 +45,10 @@ Example other_attribute_misses_array_but_hits_pixels :
   array_hit (fst (st1 7%nat)) 1 0 (WMask 0) true (map norm_bound (rbounds (req 1 (WMask 0)))) = None /\
   pixel_hit (snd (st1 7%nat)) 0 (map norm_bound (rbounds (req 1 (WMask 0)))) <> None.
 Proof. split; vm_compute; [reflexivity|discriminate]. Qed.
+Example W0_wf : wf_world W0.
+Proof. apply wf_worldb_sound. reflexivity. Qed.
 Example st1_invariant : Inv W0 st1.
-Proof. apply (step_sound W0 empty_state (req 0 (WAttr 0))). apply Inv_empty. Qed.
+Proof. apply (step_sound W0 W0_wf empty_state (req 0 (WAttr 0))). apply Inv_empty. Qed.
 
 (* a ranged bound never matches the wildcard *)
 Example wildcard_only_scalars : cb_match CAny (BRange 0 1 2) = false /\ cb_match CAny (BScalar (5 # 4)) = true.
@@ -59,5 +61,45 @@ Proof. vm_compute. reflexivity. Qed.
 (* dims: sorted, duplicates removed; a coefficient 0 still counts (the tracking is syntactic) *)
 Example dims_example : dims (Lnk [1; 0] 0 [Lnk [2] 1 [PixT 2]; PixT 0]) = [0; 2]%nat.
 Proof. reflexivity. Qed.
+
+(* a reference cube with sheared world coordinates (world_x = x + 2 z, world_y = y, world_z = z) and an image linked through
+   world x, y: the x position of the image depends on z, the reported dimensions [0; 2] say so, the scalar z bound is NOT
+   wild-carded, and stepping through z under one cache id gives a different plane each time *)
+Definition cube : dataset := mkData [3; 2; 2]%nat [[0; 1; 2; 3; 4; 5; 6; 7; 8; 9; 10; 11]%Z] [].
+Definition img : dataset := mkData [2; 6]%nat [[100; 101; 102; 103; 104; 105; 106; 107; 108; 109; 110; 111]%Z] [].
+Definition W1 : world :=
+  mkWorld [cube; img]
+          [(1%nat, 0%nat, [Some (Lnk [1] 0 [Lnk [1] 0 [WorldT [(1%nat, 1)] 0 [1%nat]]]);
+                           Some (Lnk [1] 0 [Lnk [1] 0 [WorldT [(2%nat, 1); (0%nat, 2)] 0 [0%nat; 2%nat]]])])].
+Definition zreq (z : Q) : request := mkReq 1 0 [BScalar z; BRange 0 1 2; BRange 0 1 2] (WAttr 0) true (Some 3%nat).
+Example W1_wf : wf_world W1.
+Proof. apply wf_worldb_sound. reflexivity. Qed.
+Example sheared_planes :
+  run_cached W1 empty_state [zreq 0; zreq 1; zreq 2] =
+  [OkArr [2; 2]%nat [Some 100; Some 101; Some 106; Some 107]%Z;
+   OkArr [2; 2]%nat [Some 102; Some 103; Some 108; Some 109]%Z;
+   OkArr [2; 2]%nat [Some 104; Some 105; Some 110; Some 111]%Z].
+Proof. vm_compute. reflexivity. Qed.
+(* with dimensions that miss the sheared axis the hypothesis of the theorems fails (and the cached run does go wrong) *)
+Definition W1_bad : world :=
+  mkWorld [cube; img]
+          [(1%nat, 0%nat, [Some (Lnk [1] 0 [Lnk [1] 0 [WorldT [(1%nat, 1)] 0 [1%nat]]]);
+                           Some (Lnk [1] 0 [Lnk [1] 0 [WorldT [(2%nat, 1); (0%nat, 2)] 0 [2%nat]]])])].
+Example bad_dims_rejected : wf_worldb W1_bad = false.
+Proof. reflexivity. Qed.
+Example bad_dims_stale : run_cached W1_bad empty_state [zreq 0; zreq 1] <> map (frb W1_bad) [zreq 0; zreq 1].
+Proof. vm_compute. discriminate. Qed.
+
+(* a link that is only defined for reference x >= 1 (a logarithmic axis): samples at x = -1, 0 hold NaN / not selected,
+   although index 0 would be inside the source *)
+Definition W2 : world :=
+  mkWorld [mkData [4]%nat [[0; 0; 0; 0]%Z] []; mkData [3]%nat [[7; 8; 9]%Z] [[true; true; false]]]
+          [(1%nat, 0%nat, [Some (Lnk [1] (-1) [Guard 1 (PixT 0)])])].
+Example partial_link_values :
+  frb W2 (mkReq 1 0 [BRange (-1) 3 5] (WAttr 0) true None) = OkArr [5]%nat [None; None; Some 7; Some 8; Some 9]%Z.
+Proof. vm_compute. reflexivity. Qed.
+Example partial_link_mask :
+  frb W2 (mkReq 1 0 [BRange (-1) 3 5] (WMask 0) true None) = OkArr [5]%nat [Some 0; Some 0; Some 1; Some 1; Some 0]%Z.
+Proof. vm_compute. reflexivity. Qed.
 
 Eval vm_compute in (run_cached W0 empty_state [req 0 (WAttr 0); req 1 (WAttr 0); req 1 (WMask 0)]).
